@@ -129,6 +129,22 @@ def one(req: dict, variant: str) -> dict:
                 from bitproto.parser import parse
 
                 parse(path, traditional_mode=bool(req.get("trad")))
+            elif req.get("api") == "render":
+                from bitproto.linter import lint
+                from bitproto.parser import parse
+                from bitproto.renderer import render
+
+                proto = parse(path, traditional_mode=bool(req.get("opt")))
+                if variant != "A":
+                    lint(proto)
+                render(
+                    proto,
+                    req["lang"],
+                    outdir=outdir,
+                    optimization_mode=bool(req.get("opt")),
+                    optimization_mode_filter_messages=req.get("filter"),
+                    optimization_mode_endian=req.get("endian", "both"),
+                )
             else:
                 argv = ["bitproto", req["lang"], path, outdir]
                 if variant == "A":
